@@ -178,6 +178,22 @@ def _enumerate(case, ctx, m, rng):
 def _random(case, ctx, m, rng):
     from mbi.junction_tree import JunctionTree
     np.random.seed(case['seed'] % (2 ** 32))
+    # one wide, sparse model per batch: 64-100 attributes (a census file has that many), cliques of 2-4 attributes along a
+    # random tree plus a few chords; attributes late in the domain are shared by several cliques
+    wd = int(gen.pick(rng, [64, 65, 80, 100]))
+    wnames = ['x%d' % i for i in rng.permutation(wd)]
+    wdom = m.Domain(wnames, [int(gen.pick(rng, [2, 2, 3])) for _ in wnames])
+    wcl = []
+    for i in range(1, wd):
+        par = int(rng.randint(max(0, i - 6), i))
+        cl = [wnames[i], wnames[par]] + ([wnames[int(rng.randint(wd - 8, wd))]] if rng.rand() < 0.5 else []) + ([wnames[int(rng.randint(i))]] if rng.rand() < 0.15 else [])
+        wcl.append(tuple(dict.fromkeys(cl)))
+    worder = None if rng.rand() < 0.5 else [wnames[i] for i in rng.permutation(wd)]
+    if worder is None or rng.rand() < 0.3:
+        JunctionTree(wdom, wcl, worder)
+        ctx.units += 1
+        ctx.unit_sigs.add(digest(('w', wnames, wcl, worder)))
+        ctx.tag('random:wide:%d' % wd)
     for _ in range(case['count']):
         d = int(rng.randint(7, 13))
         names = [LETTERS[i] for i in rng.permutation(12)[:d]]
